@@ -189,3 +189,12 @@ Example C12_example_connect :
   map snd (on_retries tr) = [ex_ms 7; ex_ms 40; ex_ms 20; ex_ms 20] /\
   length (requests tr) = 5%nat /\ r = Some (RConn RsConnect (CE (EReader 4))).
 Proof. vm_compute. repeat split; reflexivity. Qed.
+
+(* the retry fields a Connection honours are those of the specification in Connection mode, whose
+   bound on the value is the one the code parses with (event.go: ParseUint(_, 10, retry_parse_bits),
+   unsigned) - D6: "retry: +7" is not a retry field *)
+Example C12_retry_field_bound :
+  md_retry_bits gosse_conn = retry_parse_bits /\ retry_parse_signed = false /\
+  retries_of (interp gosse_conn [] [114; 101; 116; 114; 121; 58; 32; 43; 55; 10; 10]%N CleanEOF) = [] /\
+  retries_of (interp gosse_conn [] [114; 101; 116; 114; 121; 58; 32; 55; 10; 10]%N CleanEOF) = [HRetry 7].
+Proof. vm_compute. repeat split; reflexivity. Qed.
